@@ -294,6 +294,34 @@ def run(ctx):
                     elif not same(v, base[1], ctx):
                         ctx.violation("container-dependent-result", fn="dtw_ndim.distance_matrix[%s]" % eng, container=cname,
                                       reference_container=base[0], got=v, want=base[1], series=sn)
+        # multivariate single pairs over memory layouts
+        if it % 3 == 1:
+            nd = rng.randint(2, 3)
+            a2, b2 = np.array(gen.series_nd(rng, r, nd), dtype=float), np.array(gen.series_nd(rng, c, nd), dtype=float)
+            lays = {"C": (a2, b2), "F": (np.asfortranarray(a2), np.asfortranarray(b2)),
+                    "T_view": (np.ascontiguousarray(a2.T).T, np.ascontiguousarray(b2.T).T),
+                    "strided": (np.repeat(a2, 2, axis=0)[::2], np.repeat(b2, 2, axis=1)[:, ::2])}
+            kwn = {k: v for k, v in kw.items() if isinstance(kw.get("inner_dist", ""), str)} if cstr else {}
+            for name, f in (("dtw_ndim.distance", lambda x, y: dtw_ndim.distance(x, y, **kwn)),
+                            ("dtw_ndim.distance_fast", lambda x, y: dtw_ndim.distance_fast(x, y, **kwn)),
+                            ("dtw_ndim.warping_paths_fast", lambda x, y: (lambda r_: r_[1] if isinstance(r_, tuple) else r_)(dtw_ndim.warping_paths_fast(x, y, **kwn))),
+                            ("dtw_ndim.ub_euclidean", lambda x, y: dtw_ndim.ub_euclidean(x, y))):
+                base = None
+                for lname, (x, y) in lays.items():
+                    ctx.current("%s %s %r %r %r" % (name, lname, a2.tolist(), b2.tolist(), kwn))
+                    try:
+                        v = f(x, y)
+                    except Exception as e:
+                        ctx.violation("exception", fn=name, container=lname, error=repr(e)[:300], s1=a2.tolist(), s2=b2.tolist(),
+                                      settings=dict(dtwmon.settings_key(kwn)))
+                        continue
+                    ctx.count("container_equivalence_checks")
+                    if base is None:
+                        base = (lname, v)
+                    elif not same(v, base[1], ctx):
+                        ctx.violation("container-dependent-result", fn=name, container=lname, reference_container=base[0],
+                                      got=np.asarray(v).tolist(), want=np.asarray(base[1]).tolist(), s1=a2.tolist(),
+                                      s2=b2.tolist(), settings=dict(dtwmon.settings_key(kwn)))
         # DBA over containers (purity of series and of the initial average is watched by the snapshot monitor)
         if it % 4 == 0 and equal:
             from dtaidistance import dtw_cc as _cc
